@@ -186,6 +186,21 @@ Proof.
   specialize (H s Hs). destruct s; auto. apply andb_prop in H. tauto.
 Qed.
 
+(* OnBlockAnnounce keeps the invariant, calls the importer never and returns no Process error *)
+Lemma announce_ok bad st who h best imported : inv_state st imported ->
+  inv_state (pr_state (announce bad st who h best)) imported
+  /\ pr_events (announce bad st who h best) = []
+  /\ pr_error (announce bad st who h best) = false.
+Proof.
+  intros I. unfold announce.
+  destruct (existsb (N.eqb (h_hash h)) bad); [cbn; auto|].
+  destruct ((h_number h <=? fin (p_env st)) || tracked (p_un st) h); [cbn; auto|].
+  destruct (max_blocks <? N.max (h_number h) best - N.min (h_number h) best); [cbn; auto|].
+  destruct (knows (p_env st) (h_hash h)); [cbn; auto|].
+  cbn [pr_state pr_events pr_error]. split; [|split; reflexivity].
+  destruct I as [IU IK]. split; [now apply new_incomplete_ok|exact IK].
+Qed.
+
 Definition no_error (o : option presult) : Prop :=
   match o with Some r => pr_error r = false | None => True end.
 
@@ -203,7 +218,7 @@ Proof.
   - exists [], st, imported. split; [reflexivity|]. split; [reflexivity|]. split; [reflexivity|].
     split; [constructor|]. split; [reflexivity|exact I].
   - inversion W as [|? ? Ws Wr]; subst. cbn [run_with].
-    destruct s as [h|h|n|rs]; cbn [do_step_with].
+    destruct s as [h|h|n|rs|who h best]; cbn [do_step_with].
     + assert (I' : inv_state (mkps (p_env st) (new_incomplete (p_un st) h) (p_queue st)) imported).
       { destruct I as [IU IK]. split; [now apply new_incomplete_ok|exact IK]. }
       destruct (IH _ _ I' Wr) as (outs & stf & imp' & E & L & H & NE & EA & IF). rewrite E.
@@ -232,6 +247,13 @@ Proof.
       rewrite (rejections_of_accepted _ _ _ _ _ EA'). cbn [andb].
       split; [exact H|]. split; [constructor; [exact ER|exact NE]|]. split; [|exact IF].
       cbn [all_events flat_map]. fold (all_events outs). rewrite events_ok_app, EO. exact EA.
+    + destruct (announce_ok bad st who h best imported I) as (I' & EV & ER).
+      destruct (IH _ _ I' Wr) as (outs & stf & imp' & E & L & H & NE & EA & IF). rewrite E.
+      exists (Some (announce bad st who h best) :: outs), stf, imp'.
+      split; [reflexivity|]. split; [cbn [length]; now rewrite L|].
+      cbn [observe]. rewrite history_ok_skip by exact Logic.I.
+      split; [exact H|]. split; [constructor; [exact ER|exact NE]|]. split; [|exact IF].
+      cbn [all_events flat_map]. fold (all_events outs). rewrite EV. exact EA.
 Qed.
 
 Lemma run_fixed_safe bad steps : forall st imported,
